@@ -60,7 +60,7 @@ func (f *Same) Call(s *slip.Scope, args slip.List, depth int) slip.Object {
 }
 
 func same(x, y slip.Object) slip.Object {
-	x, y = slip.NormalizeNumber(x, y)
+	x, y = normalizeForCompare(x, y)
 	switch tx := x.(type) {
 	case slip.Fixnum:
 		if y.(slip.Fixnum) != tx {
